@@ -55,6 +55,7 @@ type c09job struct {
 	Procs  int               `json:"procs,omitempty"`   // GOMAXPROCS for this job (0 = leave)
 	Single bool              `json:"single,omitempty"`  // one interpreted goroutine: it cannot finish while it is parked
 	Hist   []c10ev           `json:"hist,omitempty"`
+	Warm   bool              `json:"warm,omitempty"` // C10: every definition is executed once before the history
 }
 
 // one evaluation on the interpreter under test
@@ -246,6 +247,17 @@ func c09HostTick(n int) {
 func c09HostTickRet(n int) int { c09HostTick(n); return n }
 func c09HostDelay()            { time.Sleep(3 * time.Millisecond) }
 
+// c09hold, when set, keeps the callers of host.Wait inside that native call until the channel is closed
+var c09hold atomic.Pointer[chan struct{}]
+
+func c09HostWait() {
+	if h := c09hold.Load(); h != nil {
+		<-*h
+		return
+	}
+	time.Sleep(3 * time.Millisecond)
+}
+
 func c09newInterp(files map[string]string) *interp.Interpreter {
 	opt := interp.Options{Stdout: &bytes.Buffer{}, Stderr: &bytes.Buffer{}}
 	if len(files) > 0 {
@@ -266,6 +278,7 @@ func c09newInterp(files map[string]string) *interp.Interpreter {
 		"Tick":    reflect.ValueOf(c09HostTick),
 		"TickRet": reflect.ValueOf(c09HostTickRet),
 		"Delay":   reflect.ValueOf(c09HostDelay),
+		"Wait":    reflect.ValueOf(c09HostWait),
 	}
 	if err := ip.Use(ex); err != nil {
 		panic(err)
@@ -406,6 +419,22 @@ func c09parkedOrGone(r *c09run, before map[uint64]bool, bound time.Duration) boo
 			sleep *= 2
 		}
 	}
+}
+
+// c09allWaiting reports whether there are interpreted goroutines created since `before` and all of them
+// sit in a wait state (channel operation, select, semaphore).
+func c09allWaiting(before map[uint64]bool) bool {
+	n := 0
+	for _, g := range c09dump() {
+		if before[g.id] || !strings.Contains(g.stack, "yaegi/interp.") {
+			continue
+		}
+		if !c09waiting(g.state) {
+			return false
+		}
+		n++
+	}
+	return n > 0
 }
 
 func c09ids() map[uint64]bool {
